@@ -34,8 +34,45 @@ class C03(engine.Check):
                 self.fail(out, spec, kind, "IU", *key, gc.show(mo), gc.show(obs))
 
 
-def specs(tier: str):
+COUNTS = {"quick": (3, 5), "thorough": (4, 6)}   # (largest count, L)
+
+
+def count_forms(top: int):
+    """Every well-formed bound: {m} {m,} {,n} {m,n} with 1 <= m (0 allowed as a lower bound) and n <= top."""
+    out = [("exact", m) for m in range(1, top + 1)] + [("min", m) for m in range(0, top + 1)] + [("max", n) for n in range(1, top + 1)]
+    out += [("minmax", m, n) for n in range(1, top + 1) for m in range(0, n + 1)]
+    return out
+
+
+def count_specs(tier: str):
+    """Bounded repetitions over every non-nullable terminal, (n ~ \"b\") and (\"ab\" | \"a\") (thorough: every non-nullable operand of <= 2 nodes), alone and followed by "a" / EOI / an abandoning alternative."""
+    from .. import gast
+    top, L = COUNTS[tier]
+    env = gast.Env(families.HELPERS)
+    ins = families.inputs(families.SIGMA_CORE, L)
+    operands = [e for e in families.core_exprs(1) if not env.nullable(e)]
+    operands += [("seq", (("ref", "n"), ("str", "b"))), ("alt", (("str", "ab"), ("str", "a")))]
+    if tier == "thorough":
+        operands = [e for e in families.core_exprs(2) if not env.nullable(e)] + operands[-2:]
     out = []
+    for e in operands:
+        rules_starts = []
+        for form in count_forms(top):
+            rep = (form[0], e) + tuple(form[1:])
+            for ctx, body in (("alone", rep), ("then_a", ("seq", (rep, ("str", "a")))), ("then_eoi", ("seq", (rep, ("ref", "EOI")))),
+                              ("abandoned", ("alt", (("seq", (rep, ("str", "b"))), ("star", ("ref", "ANY")))))):
+                rules_starts.append(body)
+        # one grammar per operand: every form/context is its own start rule
+        rules = families.HELPERS + tuple((f"r{k}", "", b) for k, b in enumerate(rules_starts))
+        for lo in range(0, len(rules_starts), 40):
+            chunk = tuple(f"r{k}" for k in range(lo, min(lo + 40, len(rules_starts))))
+            sp = engine.Spec(rules, chunk, ins, "zero", f"counts(top={top},L={L})")
+            out.append(sp)
+    return out
+
+
+def specs(tier: str):
+    out = count_specs(tier)
     for n, exact, L, silent in BOUNDS[tier]:
         ins = families.inputs(families.SIGMA_CORE, L)
         for body in families.core_exprs(n, exact=exact):
@@ -50,6 +87,7 @@ def run(tier: str) -> int:
                               rule="every expression with <= n nodes over terminals {\"a\",\"b\",\"ab\",^\"a\",'a'..'b',ANY,EOI,SOI,ASCII_HEX_DIGIT (a built-in made of several ranges),n,s} (n = {\"a\"}, s = _{ n ~ \"b\" }), "
                                    "unary operators ( ) ? * + {2} {1,} {,2} {1,2} & ! and binary ~ |, filtered for well-formedness (no repetition over a nullable operand), "
                                    "as the body of a normal start rule r and a silent start rule q, x every string over {a,b,A} up to length L, in mode IU, against the reference model; "
+                                   f"plus the counts family: every bound {{m}} {{m,}} {{,n}} {{m,n}} up to {COUNTS[tier][0]} over every non-nullable terminal, (n ~ \"b\") and (\"ab\" | \"a\") (thorough: every non-nullable operand of <= 2 nodes), alone / followed by \"a\" / followed by EOI / in an abandoned alternative, inputs up to length {COUNTS[tier][1]}; "
                                    "a case is non-trivial when the reference run backtracked at least once or returned at least one pair")
 
 
